@@ -204,16 +204,33 @@ def run(repo: Repo, L: Ledger, tier: str):
                 ok5, why5 = False, "a gap row is added that is not followed by a fragment row (scaffold could end with a gap)"
             if len(gap_adds) != 1:
                 ok5, why5 = False, "several gap rows added between two fragments"
-            for _, a in gap_adds:
+            def classify(a):
+                """-> set of kinds {'join','input'} or None when not recognised"""
                 src = norm(a)
-                defs = [norm(d) for d in local_defs(addm, a.id)] if isinstance(a, ast.Name) else []
-                is_input_prev = any(d.replace(" ", "").endswith(f".rows[{iv}-1]") for d in defs)
                 if src == "self.default_gap":
-                    kinds.add("join")
-                elif is_input_prev:
-                    kinds.add("input")
+                    return {"join"}
+                if isinstance(a, ast.Name):
+                    defs = [norm(d).replace(" ", "") for d in local_defs(addm, a.id)]
+                    if defs and all(d.endswith(f".rows[{iv}-1]") for d in defs):
+                        return {"input"}
+                if isinstance(a, ast.Subscript) and src.replace(" ", "").endswith(f".rows[{iv}-1]"):
+                    return {"input"}
+                if isinstance(a, ast.IfExp):
+                    x, y = classify(a.body), classify(a.orelse)
+                    if x is not None and y is not None:
+                        # the input row may only be used when it is a Gap
+                        t = norm(a.test).replace(" ", "")
+                        if "input" in x and not (t.startswith("isinstance(") and t.endswith(",Gap)")):
+                            return None
+                        return x | y
+                return None
+
+            for _, a in gap_adds:
+                ks = classify(a)
+                if ks is None:
+                    ok5, why5 = False, f"inserted gap '{norm(a)}' is neither the input row preceding the fragment nor the join gap"
                 else:
-                    ok5, why5 = False, f"inserted gap '{src}' is neither the input row preceding the fragment nor the join gap"
+                    kinds |= ks
         if len(frag_adds) > 1:
             ok5, why5 = False, "fragment added twice"
     if kinds != {"join", "input"}:
